@@ -1,6 +1,7 @@
 package main
 
 import (
+	"unicode/utf8"
 	"bytes"
 	"encoding/base64"
 	"encoding/json"
@@ -87,6 +88,9 @@ type runObs struct {
 	JSON      string      `json:"json,omitempty"`
 	IndentOK  *bool       `json:"indent_ok,omitempty"`
 	JSONErr   string      `json:"json_err,omitempty"`
+	// JSONUtf8: the bytes returned by ToJson / ToJsonIndent are valid UTF-8 (the observation itself is re-encoded, which
+	// would hide invalid bytes)
+	JSONUtf8 *bool `json:"json_utf8,omitempty"`
 	Title     string      `json:"title"`
 	Stages    []string    `json:"stages"`
 	Forest    []node      `json:"forest,omitempty"`
@@ -409,6 +413,8 @@ func once(c *runCase, base string, want map[string]bool) (o *runObs) {
 	} else {
 		o.JSON = string(b)
 		bi, err2 := j.ToJsonIndent()
+		u := utf8.Valid(b) && (err2 != nil || utf8.Valid(bi))
+		o.JSONUtf8 = &u
 		if err2 != nil {
 			o.JSONErr = "indent: " + err2.Error()
 		} else {
